@@ -139,7 +139,7 @@ EnvCancel(t) ==
           /\ K' = K
      ELSE /\ K' = ScopeCancel(K, <<t, 1>>)
           /\ E' = [E EXCEPT !.n = @ + 1, !.scoped = @ \cup {t}]
-  /\ Feed([ev |-> "creq", t |-> t])
+  /\ Feed([ev |-> "creq", t |-> t, kind |-> "scope"])
   /\ hist' = Append(hist, HE(t, "cancel"))
   /\ UNCHANGED L
 
@@ -147,7 +147,7 @@ EnvNative(t) ==
   /\ EnvPoint /\ "native" \in EnvKinds /\ E.n < MaxEnv /\ t \notin E.natived /\ K.T[t].st # "done"
   /\ K' = TaskCancel(K, t, FALSE)
   /\ E' = [E EXCEPT !.n = @ + 1, !.natived = @ \cup {t}]
-  /\ Feed([ev |-> "creq", t |-> t])
+  /\ Feed([ev |-> "creq", t |-> t, kind |-> "native"])
   /\ hist' = Append(hist, HE(t, "native"))
   /\ UNCHANGED L
 
